@@ -2,7 +2,9 @@
 # usage: ./run.sh <property-id> <quick|thorough>
 # Rebuilds the harness against /repo's current working tree (go.mod: replace => /repo) and runs
 # one check. Exit 0 = property held on everything explored; 1 = VIOLATION; 2 = harness/build error.
-cd /verif || exit 2
+cd "$(dirname "$(readlink -f "$0")")" || exit 2
+# evidence, replays and known_findings.json live next to this script (/verif in normal use)
+export VERIF_ROOT="${VERIF_ROOT:-$PWD}"
 export GOFLAGS=-mod=mod GOPROXY=off GOSUMDB=off GOTOOLCHAIN=local
 export VERIF_TIER="${2:-quick}"
 if ! go build -o bin/check ./cmd/check 2> bin/build.err; then
